@@ -5,6 +5,8 @@
 (*   Start(kind, lead)  Equation(lhs, desc, rhs=...)  kind = "none"   rhs=()          *)
 (*                                                    kind = "parsed" rhs=<string>    *)
 (*                                                    kind = "blob"   [Term(s,True)]  *)
+(*                                                    kind = "assign" the one-string  *)
+(*                                                    form Equation('lhs = <rhs> # d')*)
 (*                      ("blob" is what Sector.AddVariable does with every equation)  *)
 (*   AddTerm(form)      Equation.AddTerm(<string>)                                    *)
 (*   Join(list)         create_equation_from_terms(list)                              *)
@@ -55,6 +57,11 @@ DenText1(s, v) ==
       [] s = "x/-y"    -> 0 - (v.x \div v.y)
       [] s = "x--y"    -> v.x + v.y
       [] s = "a-y"     -> v.a - v.y
+      \* leading expressions that contain the character '=' (comparisons), for the one-string constructor form
+      [] s = "(x>=6)*a" -> IF v.x >= 6 THEN v.a ELSE 0
+      [] s = "(x<=6)*a" -> IF v.x <= 6 THEN v.a ELSE 0
+      [] s = "(x==y)*a" -> IF v.x = v.y THEN v.a ELSE 0
+      [] s = "(x!=y)*a" -> IF v.x # v.y THEN v.a ELSE 0
       [] s = "x*2"     -> v.x * 2
       [] s = "2*x"     -> 2 * v.x
       [] s = "6/y"     -> 6 \div v.y
@@ -78,7 +85,7 @@ MkTerm(text, coef, blob) == [text |-> text, coef |-> coef, blob |-> blob]
 StartOp(kind, lead) ==
     CASE kind = "none"   -> << >>
       [] kind = "blob"   -> << MkTerm(lead.text, 1, TRUE) >>
-      [] kind = "parsed" -> IF lead.parse = "term"
+      [] kind \in {"parsed", "assign"} -> IF lead.parse = "term"
                             THEN << MkTerm(lead.body, lead.coef, FALSE) >>
                             ELSE << MkTerm(lead.text, 1, TRUE) >>
 
@@ -190,7 +197,7 @@ Join(l) ==
     /\ jn' = [JoinOp(l) EXCEPT !.after = l] @@ [arg |-> l]
     /\ UNCHANGED << start, terms, lead, added >>
 
-Next == \/ \E k \in {"none", "parsed", "blob"}, l \in Leads : Start(k, l)
+Next == \/ \E k \in {"none", "parsed", "blob", "assign"}, l \in Leads : Start(k, l)
         \/ \E f \in Forms : AddTerm(f)
         \/ \E l \in SeqsUpTo(JoinElems, MaxJoin) : Join(l)
 
